@@ -546,7 +546,7 @@ Definition apply_rule (k : known) (r : rule) : known :=
   if N.ldiff m1 (kset k f1) =? 0 then kadd k f2 m2 0 else k.
 Definition close1 (k : known) : known := fold_left apply_rule rules k.
 Fixpoint closeN (n : nat) (k : known) : known :=
-  match n with O => k | S n' => closeN n' (close1 k) end.
+  match n with O => k | S n' => close1 (closeN n' k) end.
 Definition close (k : known) : known := closeN (List.length rules) k.
 
 Definition implied (k : known) (ft : feat) : bool :=
@@ -734,13 +734,25 @@ Fixpoint solve (pick : nat) (k : known) (l : list satom) : option known :=
       end
   end.
 
-(* an environment from known facts: closure of the set bits, everything else clear *)
-Definition env_of_known (k : known) : env :=
-  let kc := close k in env_of_words (map (fun f => kset kc f) all_fields).
+(* Implications that hold of every real part and hypervisor but are deliberately NOT part of
+   [rules] (the theorem covers environments that violate them too): XSETBV only accepts state
+   components CPUID enumerates, so enabled ZMM state goes with AVX512F and enabled YMM state
+   with AVX.  They are used only to make the reported witnesses look like real machines. *)
+Definition soft_rules : list rule :=
+  [ (X0L, 0x20, L7B, bit 16); (X0L, 0x40, L7B, bit 16); (X0L, 0x80, L7B, bit 16); (X0L, 0x4, L1C, bit 28) ].
+Definition close_with (rs : list rule) (k : known) : known :=
+  (fix go (n : nat) (k : known) : known :=
+     match n with O => k | S n' => fold_left apply_rule rs (go n' k) end) (List.length rs) k.
 
-Definition witness (pick : nat) (k : known) (path : list satom) : option env :=
+(* an environment from known facts: closure of the set bits (under the architectural rules,
+   optionally also the soft ones), everything else clear *)
+Definition env_of_known (soft : bool) (k : known) : env :=
+  let kc := close_with (if soft then app rules soft_rules else rules) k in
+  env_of_words (map (fun f => kset kc f) all_fields).
+
+Definition witness (soft : bool) (pick : nat) (k : known) (path : list satom) : option env :=
   match solve pick k path with
-  | Some kk => Some (env_of_known kk)
+  | Some kk => Some (env_of_known soft kk)
   | None => None
   end.
 
@@ -779,7 +791,8 @@ Definition refutes (tbl : list (string * list feat)) (d : dispatcher) (e : env) 
 
 Definition candidates (d : dispatcher) : list env :=
   let k := k_of_feats (doc_min (d_entry d)) in
-  flat_map (fun p => flat_map (fun pick => match witness pick k (fst p) with Some e => [e] | None => [] end)
+  flat_map (fun p => flat_map (fun pick => flat_map (fun soft =>
+                        match witness soft pick k (fst p) with Some e => [e] | None => [] end) [true; false])
                               (seq 0 6))
            (paths (tree_of d)).
 
@@ -833,3 +846,9 @@ Definition ref_ok (r : string * string * string * string) : bool :=
   String.eqb slot (String.append e "_dispatched") &&
   ((String.eqb kind "store" && String.eqb place (String.append e ":code")) ||
    (String.eqb kind "jmp" && String.eqb place (String.append e ":stub"))).
+
+(* the dispatchers the checker does not accept, and whether each has a validated witness *)
+Definition unsafe_of (tbl : list (string * list feat)) (ds : list dispatcher) : list dispatcher :=
+  filter (fun d => negb (check_disp tbl d)) ds.
+Definition has_witness (tbl : list (string * list feat)) (d : dispatcher) : bool :=
+  match counterexample tbl d with Some _ => true | None => false end.
